@@ -92,6 +92,11 @@ pub fn on_server_message(sim: &mut Sim, c: usize, ch: usize, bytes: &[u8], id: u
             }
             for (e, comps) in &msg.changes {
                 for r in comps {
+                    if let Some(t) = sess.f20_cells.get_mut(&(*e, r.kind)) {
+                        if *t == u32::MAX {
+                            *t = msg.tick;
+                        }
+                    }
                     if r.kind == Kind::O {
                         if let Val::Ver(v) = r.val {
                             sess.o_sent.entry(*e).or_default().push((msg.tick, v));
@@ -177,9 +182,15 @@ pub fn on_server_message(sim: &mut Sim, c: usize, ch: usize, bytes: &[u8], id: u
                 }
             }
         }
+        // A cell hit by the tick-0 finding is trustworthy again once the client is at or beyond a tick
+        // whose message carried the component anew.
         for (e, comps) in &msg.entities {
             for r in comps {
-                sess.f20_cells.remove(&(*e, r.kind));
+                if let Some(t) = sess.f20_cells.get_mut(&(*e, r.kind)) {
+                    if *t == u32::MAX {
+                        *t = msg.tick;
+                    }
+                }
             }
         }
         sess.mut_by_index.insert(msg.index, id);
@@ -765,7 +776,7 @@ pub fn after_client_frame(sim: &mut Sim, c: usize) {
         };
         for k in VALUE_KINDS {
             if let (Some(a), Some(b)) = (sc.get(&k), comps.get(&k)) {
-                if a != b && !sim.no_taint && sess.f20_cells.contains(&(*se, k)) {
+                if a != b && !sim.no_taint && sess.f20_cells.get(&(*se, k)).map(|t| *lt < *t).unwrap_or(false) {
                     f20_hits += 1;
                 } else if a != b {
                     if newly_applied.iter().any(|id| sess.muts[id].ents.iter().any(|(e, _)| e == se)) {
@@ -1232,7 +1243,7 @@ pub fn end_of_run(sim: &mut Sim) {
                         let (Some(a), Some(b)) = (a, b) else { continue };
                         match k {
                             Kind::P => {
-                                if a != b && !sim.no_taint && sess.f20_cells.contains(&(bits, k)) {
+                                if a != b && !sim.no_taint && sess.f20_cells.get(&(bits, k)).map(|t| *lt < *t).unwrap_or(false) {
                                     *sim.stats.probes.entry("known_F20_hit".into()).or_insert(0) += 1;
                                 } else if a != b {
                                     let Val::Ver(sv) = a else { continue };
@@ -1268,7 +1279,7 @@ pub fn end_of_run(sim: &mut Sim) {
                                 }
                             }
                             _ => {
-                                if a != b && !sim.no_taint && sess.f20_cells.contains(&(bits, k)) {
+                                if a != b && !sim.no_taint && sess.f20_cells.get(&(bits, k)).map(|t| *lt < *t).unwrap_or(false) {
                                     *sim.stats.probes.entry("known_F20_hit".into()).or_insert(0) += 1;
                                 } else if a != b {
                                     v.push(("C01", "value", format!("client {c}: slot {i} {k:?} server={a:?} client={b:?} after quiescence (confirmed tick {lt})")));
